@@ -181,7 +181,7 @@ def r4(ctx: Ctx) -> None:
             ctx.report(f.where, f"nondeterminism {ast.unparse(x)[:60]}", f"{f.qualname} (reachable from the relocation entry points) uses a nondeterministic source",
                        lineno=x.lineno)
     ctx.site(FORCE, "functions scanned (tool + reachable frame library)", functions=n)
-    _undecorated(ctx, [f for f in allf if f.module.relpath == FORCE])
+    _undecorated(ctx, allf)       # the tool and the library functions it reaches (wire length, overlap, geometry)
     # hidden state: a memoised helper or a module-level object in the relocation code makes the result depend on what was
     # relocated before in the same process (the C20 inventory, restricted to the code the relocation runs)
     from . import C20 as _c20
